@@ -237,11 +237,10 @@ def binarize(grammar, **args):
                 for vert in grammar[func][lin]:
                     rule_cnt = grammar[func][lin][vert]
                     if nofanout:
-                        # then use the corresponding counts/contexts
+                        # then use the corresponding contexts
                         vert = tuple([grammarconst.
                                       label_strip_fanout(label)
                                       for label in vert])
-                        rule_cnt = nf_vert_c[vert]
                     if 'reordering' in args:
                         _func, _lin = args['reordering'](func, lin)
                     else:
